@@ -755,6 +755,16 @@ _Position = _nt('_Position', 'index, line, column')
 
 
 class _ParseFunction(_nt('_ParseFunction', 'func, args, kwargs')):
+    def __new__(cls, func, args, kwargs):
+        self = super().__new__(cls, func, args, kwargs)
+        # The hash is computed once, when the call is made: an argument may be
+        # a call itself, nested as deep as the rules recurse.
+        try:
+            self._hash = hash(self._key())
+        except TypeError:
+            self._hash = None
+        return self
+
     def __call__(self, ${ctx}_text, _pos):
         return self.func(${ctx}_text, _pos, *self.args, **dict(self.kwargs))
 
@@ -769,18 +779,29 @@ class _ParseFunction(_nt('_ParseFunction', 'func, args, kwargs')):
         )
 
     def __eq__(self, other):
-        return isinstance(other, _ParseFunction) and self._key() == other._key()
+        if self is other:
+            return True
+        return (
+            isinstance(other, _ParseFunction)
+            and self._hash == other._hash
+            and self._key() == other._key()
+        )
 
     def __ne__(self, other):
         return not self == other
 
     def __hash__(self):
-        return hash(self._key())
+        if self._hash is None:
+            raise TypeError('an argument of the call cannot be hashed')
+        return self._hash
 
 
 def _argument_key(value):
     if isinstance(value, ParsedObject):
         return (ParsedObject, id(value))
+    if isinstance(value, _ParseFunction):
+        # (A tuple by birth, but it has its own, precomputed key.)
+        return (_ParseFunction, value)
     if isinstance(value, tuple):
         # Equal tuples may hold different values: (1,) == (True,).
         return (type(value), tuple(_argument_key(x) for x in value))
